@@ -65,9 +65,15 @@ def io_close_steps(src):
             continue
         if isinstance(st, ast.Try):
             for x in stmts(st.body):
-                name = {'self._running.clear()': 'clear-running', 'self._close_socket()': 'close-socket'}.get(ast.unparse(x))
+                ux = ast.unparse(x)
+                name = {'self._running.clear()': 'clear-running', 'self._close_socket()': 'close-socket',
+                        'self.socket = None': 'drop-socket-locked', 'self.poller = None': 'drop-poller',
+                        'self._inbound_thread = None': 'drop-thread-locked'}.get(ux)
+                if name is None and isinstance(x, ast.If) and ast.unparse(x.test) == 'self._inbound_thread' and \
+                        'self._inbound_thread.join(' in ux:
+                    name = 'join-reader-locked'       # the reader is joined while both IO locks are held
                 if name is None:
-                    raise ExtractError('IO.close: unknown statement %s' % ast.unparse(x)[:60])
+                    raise ExtractError('IO.close: unknown statement %s' % ux[:60])
                 out.append(name)
             fin = [ast.unparse(x) for x in stmts(st.finalbody)]
             if sorted(fin) != ['self._rd_lock.release()', 'self._wr_lock.release()']:
